@@ -7,7 +7,7 @@ from collections import Counter
 
 import iso8601
 
-from ..gen import canon, dt_us, mk_dt, mk_event, rand_data, rand_event_spec, rand_instant, rand_offset, td_us
+from ..gen import batch_edge, canon, dt_us, mk_dt, mk_event, rand_data, rand_event_spec, rand_instant, rand_offset, td_us
 
 ID = "C14"
 LEVEL = "exploration"
@@ -57,6 +57,12 @@ def gen_case(rng, ctx):
             # clustered in time so that long events overlap many others and timestamps tie
             n = rng.choice([999, 1000, 1001, 1500, 2500, 5000])
             base = rand_instant(rng, 10**15, 3 * 10**15) // 1000 * 1000
+        edge = not big and rng.random() < 0.12
+        if edge:
+            # a count at which a batching migration would cut (exact multiples of likely batch sizes, and one off)
+            n = batch_edge(rng, 1100 if ctx.tier == "quick" else 11000)
+            base = rand_instant(rng, 10**15, 3 * 10**15) // 1000 * 1000
+            big = True
         evs = []
         for _ in range(n):
             uid += 1
@@ -67,7 +73,7 @@ def gen_case(rng, ctx):
                 s["data"] = {"app": rng.choice(["a", "b"])}
             s["data"]["uid"] = uid
             evs.append(s)
-            if rng.random() < 0.08:
+            if not edge and rng.random() < 0.08:
                 # the same observation recorded more than once (distinct legacy ids, identical instant/duration/data)
                 evs += [copy.deepcopy(s) for _ in range(rng.choice([1, 1, 2]))]
         b = dict(id=bid, type=rng.choice(["t", "currentwindow"]), client="c-" + bid[:3], hostname=rng.choice(["h", "ünï"]), events=evs)
